@@ -23,7 +23,7 @@ theorem BrkParams.congr {inpW : Bytes} {sd : StateDef} {δ : Nat} {ms mw mw0 ms'
   ⟨by rw [h1]; exact h.np, by rw [h1]; exact h.skip, by rw [h2]; exact h.c0, by rw [h3]; exact h.x0, by rw [h4]; exact h.r0, h.q0⟩
 
 section
-variable {env : Env κ} {inpS inpW : Bytes} {δ : Nat} {K : Nat → κ → κ → Prop}
+variable {env : Env κ} {inpS inpW : Bytes} {δ : Nat} {K : Nat → κ → κ → Prop} {Loc : κ → Nat → Prop}
 
 /-- a common break as a step outcome -/
 theorem lock_of_break_both (F : Frame inpS inpW δ) (hcl : Closed inpS inpW δ) {fs : FlagMap} {st : StateId} {sd : StateDef}
@@ -32,7 +32,7 @@ theorem lock_of_break_both (F : Frame inpS inpW δ) (hcl : Closed inpS inpW δ) 
     (hfl : ms.c.isLast = false → (fs st).2.le ab.boundary = true ∧ (ab.Sn = true → ab.St = true))
     (hsm : sm = .none ∨ (sm = .inSeq ∧ hasSeq sd = true))
     (hdebt : 0 < d → hasEoc sd = true) (hK : K d ms.x.sink mw.x.sink) :
-    LockOut env.tbl fs inpW δ K true (breakOnEndOfInput inpS ms) (breakOnEndOfInput inpW mw) := by
+    LockOut env.tbl fs inpW δ K Loc true (breakOnEndOfInput inpS ms) (breakOnEndOfInput inpW mw) := by
   have hsm' : sm ≠ .stale := by
     rcases hsm with h | ⟨h, _⟩ <;> rw [h] <;> intro hh <;> cases hh
   rcases break_both F hcl h hP (fun hl => (hfl hl).2) hsm' hK with hp | ⟨c, c', h1, h2, h3, h4, h5, h6, h7, h8, h9⟩
@@ -63,7 +63,7 @@ theorem armOk_seq {tbl : Table} {fs : FlagMap} {st : StateId} {ab : Ab} {arm : A
   exact h
 
 /-- **Sequence arms**, the two runs reading the same consumed byte. -/
-theorem runSeqArms_lock (F : Frame inpS inpW δ) (hops : OpsSim env.ops inpS inpW δ K) {fs : FlagMap} {st : StateId}
+theorem runSeqArms_lock (F : Frame inpS inpW δ) (hops : OpsSim env.ops inpS inpW δ K Loc) {fs : FlagMap} {st : StateId}
     {sd : StateDef} (ch : Option UInt8) (eoi : Bool) :
     ∀ (arms : List Arm), (∀ a ∈ arms, a ∈ sd.arms) → ∀ {sm : SeqMode} {ms mw mw0 : M κ} {npw0 : Nat},
     StepCtx env.tbl fs st sd ms.c → MRel δ 0 0 (fs st).2.inStep sm ms mw → K 0 ms.x.sink mw.x.sink →
@@ -74,7 +74,7 @@ theorem runSeqArms_lock (F : Frame inpS inpW δ) (hops : OpsSim env.ops inpS inp
     match runSeqArms env inpS ch arms ms with
     | .inr ms2 => ∃ mw2, runSeqArms env inpW ch arms mw = .inr mw2 ∧ MRel δ 0 0 (fs st).2.inStep .none ms2 mw2 ∧
         ms2.c = ms.c ∧ ms2.x = ms.x ∧ mw2.c = mw.c ∧ mw2.x = mw.x ∧ (leaveSeq mw2).r = (leaveSeq mw).r
-    | .inl rs => (∃ rw, runSeqArms env inpW ch arms mw = .inl rw ∧ LockOut env.tbl fs inpW δ K eoi rs rw) ∨
+    | .inl rs => (∃ rw, runSeqArms env inpW ch arms mw = .inl rw ∧ LockOut env.tbl fs inpW δ K Loc eoi rs rw) ∨
         ((eoi = true → ¬ Closed inpS inpW δ) ∧ BreakOut env.tbl fs env.ops inpS inpW δ 0 ms.x mw0 rs) := by
   intro arms
   induction arms with
@@ -104,7 +104,7 @@ theorem runSeqArms_lock (F : Frame inpS inpW δ) (hops : OpsSim env.ops inpS inp
           | .inr ms2 => ∃ mw2, runSeqArms env inpW ch rest (leaveSeq (enterSeq mw)) = .inr mw2 ∧
               MRel δ 0 0 (fs st).2.inStep .none ms2 mw2 ∧
               ms2.c = ms.c ∧ ms2.x = ms.x ∧ mw2.c = mw.c ∧ mw2.x = mw.x ∧ (leaveSeq mw2).r = (leaveSeq mw).r
-          | .inl rs => (∃ rw, runSeqArms env inpW ch rest (leaveSeq (enterSeq mw)) = .inl rw ∧ LockOut env.tbl fs inpW δ K eoi rs rw) ∨
+          | .inl rs => (∃ rw, runSeqArms env inpW ch rest (leaveSeq (enterSeq mw)) = .inl rw ∧ LockOut env.tbl fs inpW δ K Loc eoi rs rw) ∨
               ((eoi = true → ¬ Closed inpS inpW δ) ∧ BreakOut env.tbl fs env.ops inpS inpW δ 0 ms.x mw0 rs) := by
         intro _
         have hcs' : (leaveSeq (enterSeq ms)).c = ms.c := hlcs.trans hcs
@@ -195,7 +195,8 @@ theorem runSeqArms_lock (F : Frame inpS inpW δ) (hops : OpsSim env.ops inpS inp
                 rw [hcadv]
                 exact ⟨cx.look, cx.ok, cx.wf, by show (enterSeq ms).c.state = st; rw [hcs]; exact cx.st_eq,
                   by show _ ∨ (enterSeq ms).c.entered = true; rw [hcs]; exact cx.ent⟩
-              have hbody := runBody_sim F hops fs st true arm.body hok hadv (by rw [hxadv, hxadvw]; exact hK) (Or.inl rfl)
+              have hbody := runBody_sim F hops fs st true arm.body hok hadv (by rw [hxadv, hxadvw]; exact hK)
+                (fun hh => absurd hh (Nat.lt_irrefl 0)) (Or.inl rfl)
                 (by
                   intro s _ cl _ _
                   left
